@@ -114,6 +114,12 @@ class MatrixArm(Arm):
         # in the quick tier the f2py-compiling baseline of fortran rows is skipped (the raise itself needs no compile)
         res.nontrivial = True
         spec = matrix_spec(d)
+        # (listed findings are phrased over model specs: e.g. a discrete delay next to a gamma kernel on one merged source
+        #  variable is dropped silently - F-11b - so that no ring buffer exists that a backend could refuse)
+        ex = excluded_by("C20", {"spec": spec, "cfg": {"vectorize": vec, "solver": s, "backend": b}}, ctx)
+        if ex:
+            res.excluded = ex
+            return res
         dt, T = 0.01, 0.1
         outputs = {"a": "p0/op0/x", "b": "p1/op0/x"}
         only_sparse = reasons == [f"sparse Jacobian on {b}"]
